@@ -261,6 +261,10 @@ def render_body(k, part, rot):
         return [['await aw(%d)' % k]]
     if b == 'swapout':
         return [['x%d = p(%d)' % (k, k)], ['import sys, io'], ['sys.stdout = io.StringIO()']]
+    if b == 'closeout':
+        forms = [[['x%d = p(%d)' % (k, k)], ['import sys'], ['sys.stdout.close()']],
+                 [['x%d = p(%d)' % (k, k)], ['import sys'], ['with sys.stdout:', '    pass']]]
+        return forms[rot % len(forms)]
     if b == 'filters':
         return [['x%d = p(%d)' % (k, k)], ['import warnings'], ["warnings.simplefilter('error')"]]
     if b == 'defh':
@@ -442,6 +446,9 @@ def opts_to_config(opts):
 REPORT_STYLES = ['udiff', 'cdiff', 'ndiff', 'none', 'only_first_failure']
 
 
+_PROC_STD = (sys.stdout, sys.stderr)
+
+
 def run_case(prog, wants, cfg, rot, modpath=None, verbose=0, reportchoice=None, colored=False):
     """Execute; returns observation dict."""
     from xdoctest import doctest_example
@@ -450,6 +457,14 @@ def run_case(prog, wants, cfg, rot, modpath=None, verbose=0, reportchoice=None, 
     text, starts = render_program(prog, wants, rot)
     T = []
     obs = {'text': text, 'layout': starts}
+    # an earlier case may have left a closed or foreign stream behind: a capture object that was never stopped puts ITS
+    # original stream back whenever its finaliser happens to run
+    for _name, _real in zip(('stdout', 'stderr'), _PROC_STD):
+        cur = getattr(sys, _name)
+        if cur is not _real and (getattr(cur, 'closed', False) or isinstance(cur, io.StringIO)):
+            setattr(sys, _name, _real)
+        if getattr(getattr(sys, _name), 'closed', False):        # even the process's own stream was closed by a stray doctest statement
+            setattr(sys, _name, open(os.devnull, 'w'))
     with warnings.catch_warnings():
         warnings.simplefilter('ignore')
         dt = doctest_example.DocTest(text, modpath=modpath, callname='case', mode=cfg['mode'])
@@ -477,14 +492,18 @@ def run_case(prog, wants, cfg, rot, modpath=None, verbose=0, reportchoice=None, 
                 return obs
             try:
                 summary = dt.run(verbose=verbose, on_error=cfg['onError'])
+                obs['stdout_restored'] = sys.stdout is outer
+                obs['stderr_restored'] = sys.stderr is old_stderr
                 obs['result'] = 'failed' if summary['failed'] else ('passed' if summary['passed'] else 'skipped')
                 obs['exc_type'] = type(summary['exc_info'][1]).__name__ if summary['exc_info'] else None
                 obs['flags_consistent'] = (int(summary['passed']) + int(summary['failed']) + int(summary['skipped'])) == 1
             except BaseException as ex:
+                # looked at while the exception (and with it the frames of the run) is alive: a finaliser must not be what
+                # puts the stream back
+                obs['stdout_restored'] = sys.stdout is outer
+                obs['stderr_restored'] = sys.stderr is old_stderr
                 obs['result'] = 'raised'
                 obs['exc_type'] = type(ex).__name__
-            obs['stdout_restored'] = sys.stdout is outer
-            obs['stderr_restored'] = sys.stderr is old_stderr
             obs['filters_restored'] = warnings.filters == old_filters
             obs['showwarning_restored'] = warnings.showwarning is old_showwarning
             new_path = [q for q in sys.path if q != '/xdv/leftover']
@@ -494,6 +513,11 @@ def run_case(prog, wants, cfg, rot, modpath=None, verbose=0, reportchoice=None, 
             import asyncio
             obs['no_running_loop'] = asyncio._get_running_loop() is None
         finally:
+            if obs.get('stdout_restored') is False:
+                # a capture object that was never stopped puts ITS original stream back whenever its finaliser runs: make
+                # that happen now, not in the middle of a later case
+                import gc
+                gc.collect()
             sys.stdout, sys.stderr = old_stdout, old_stderr
             warnings.filters[:] = old_filters
             warnings.showwarning = old_showwarning
@@ -585,7 +609,7 @@ def compare(exp, obs, wants):
             bad.append(('exc_type', None, obs.get('exc_type')))
     elif exp['result'] == 'raised':
         kind = exp['raise_kind']
-        names = {'base': ('SystemExit', 'KeyboardInterrupt'), 'Skipped': ('Skipped',)}.get(kind) or KIND_TO_EXC.get(kind, ())
+        names = {'base': ('SystemExit', 'KeyboardInterrupt'), 'Skipped': ('Skipped',), 'internal': ('ValueError',)}.get(kind) or KIND_TO_EXC.get(kind, ())
         if kind == 'reprfail':
             names = ('RuntimeError',)
         if obs.get('exc_type') not in names:
